@@ -2526,6 +2526,18 @@ def c06_drain(ctx):
                 probs.append('row %s does not hand a waker to be woken' % var)
             if kind == 'write' and val not in w:
                 probs.append('row %s does not leave the state %s' % (var, val))
+        # the exchange and the write that settles the new state are one critical section: a guard released and taken again in
+        # between lets the other party act on the placeholder the exchange left behind
+        Hdw = ctx.held(fn)
+        xch = [b2 for b2, t2 in fn.calls() if (t2['func'].get('fn') or '') in ('core::mem::replace', 'core::mem::swap') and not fn.blocks[b2]['cleanup']]
+        xh = frozenset().union(*[Hdw.holds_at_term(b2, 'DrainWaker.state') for b2 in xch]) if xch else frozenset()
+        for b2, blk in enumerate(fn.blocks):
+            if blk['cleanup']:
+                continue
+            for i2, st in enumerate(blk['stmts']):
+                if st['k'] == 'assign' and st['pl']['p'] and all(p_['k'] == 'deref' for p_ in st['pl']['p']) and clean_ty(st['pl'].get('ty') or '') == DWS:
+                    if xch and not (Hdw.holds_before(b2, i2, 'DrainWaker.state') & xh):
+                        probs.append('the state is exchanged under one hold of the latch\'s lock and written under another (the lock is released between the exchange and the decision)')
         # the Option result is woken after the lock
         wakes = [s for c in [fn] + _children(ctx, fn.name) for s in g.sites.get(c.name, []) if s.kind == 'wake']
         if not wakes:
